@@ -8,7 +8,7 @@
     [C12_status_readable] below. *)
 From Coq Require Import List Arith Bool NArith Permutation.
 From MWF Require Import Base.Util Base.Str Status.Csv Status.CsvProofs Status.Rows Status.RowsProofs
-  Status.Lock Status.LockProofs Status.AtomicTable.
+  Status.Lock Status.LockProofs Status.AtomicTable Status.LockCase.
 Import ListNotations.
 
 (* ------------------------------------------------------------------------- *)
@@ -305,3 +305,18 @@ Proof. exact locked_same_schedule_empty. Qed.
 
 Example ex_good_text : good_text ex_g 0 (status_text ex_g 0 ex_recs).
 Proof. exists ex_recs. split; [|split]; [vm_compute; reflexivity|vm_compute; reflexivity|reflexivity]. Qed.
+
+(** the Timeout scenario the harness replays against the real FileLock, on the
+    demo tables: {} while the lock is held elsewhere, then the old, then the new
+    table; the writer's Timeout leaves the old file *)
+Example ex_scenario :
+  scenario_model demo_old demo_new_chunks
+  = ([AEmpty; AText demo_old; AText (List.concat demo_new_chunks)], Some demo_old,
+     Some (List.concat demo_new_chunks)).
+Proof. vm_compute. reflexivity. Qed.
+
+Example ex_scenario_case :
+  lock_case_ok (demo_old, demo_new_chunks,
+                ([None; Some (parse demo_old); Some (parse (List.concat demo_new_chunks))],
+                 demo_old, List.concat demo_new_chunks)) = true.
+Proof. vm_compute. reflexivity. Qed.
